@@ -17,7 +17,14 @@ for M in $MUTANTS; do
   if ! git -C $W/repo apply /verif/seeded/$M/patch.diff; then echo -e "$M\tAPPLY-FAILED" >> "$OUT"; continue; fi
   ( cd $W/sim && cargo build --release --offline >/dev/null 2>&1 ) || { echo -e "$M\tBUILD-FAILED" >> "$OUT"; continue; }
   LINE="$M"
-  for P in $PROPS; do
+  # a change that touches only the SD driver cannot affect the file-system checks and vice versa
+  # (C12 runs full-stack sessions, so it is always included)
+  if grep -q "^+++ b/src/sdcard" /verif/seeded/$M/patch.diff && ! grep -q "^+++ b/src/\(fat\|filesystem\|volume_mgr\|blockdevice\|lib\)" /verif/seeded/$M/patch.diff; then
+    MPROPS="C12 C13 C14"
+  else
+    MPROPS=$(echo $PROPS | sed 's/C13//; s/C14//')
+  fi
+  for P in $MPROPS; do
     R=$(cd $W/sim && VERIF_KNOWN=/verif/known_findings.jsonl VERIF_EVIDENCE_DIR=$W/out VERIF_REPLAY_DIR=$W/out timeout 900 ./target/release/sdmmc-sim check $P ${TIER:-quick} 2>&1)
     RC=$?
     SIG=$(echo "$R" | grep -E "^violation in" | head -1 | sed 's/^violation in run [0-9]*: //' | cut -d' ' -f1)
